@@ -81,6 +81,18 @@ def sort_of(ty):
     raise Unsupported(f"no sort for type {ty}")
 
 
+def kind_name(ty):
+    """name of the heap map family for element/key/value type `ty`: reference-like types get their own maps (never aliased with ints)"""
+    t = strip_opt_(ty)
+    if t[0] in ("ref", "list", "dict", "set", "class"):
+        return "Ref"
+    return str(sort_of(t))
+
+
+def strip_opt_(ty):
+    return ty[1] if ty[0] == "opt" else ty
+
+
 def fresh(ty, hint="v"):
     n = fresh_name(hint)
     if ty[0] == "opt":
@@ -145,7 +157,7 @@ def truth(v, st=None):
             return z3.And(z3.Not(v.none), v.term != 0)
         raise Unsupported(f"truth of {v.ty}")
     if k == "list" and st is not None:
-        return st.length(v.term) > 0
+        return st.length(v.term, v.ty[1]) > 0
     if k == "dyn":
         # truthiness of a JSON value: bools only (other tags unsupported -> obligation elsewhere)
         return dyn_bool(v.term)
@@ -396,18 +408,23 @@ class State:
             self.assume(c)
 
     # ---- lists (views: len, elem, and for duplicate-free reference lists mem / heapok)
-    def len_arr(self):
-        return self.harr("len", lambda: z3.ArraySort(REF, z3.IntSort()))
+    def len_key(self, ety=None):
+        """lists of reference-like elements and lists of numbers have separate length maps (a list object has one element kind)"""
+        k = "Ref" if ety is None else kind_name(ety)
+        return "len" if k == "Ref" else "len:" + k
 
-    def length(self, lst):
-        return z3.Select(self.len_arr(), lst)
+    def len_arr(self, ety=None):
+        return self.harr(self.len_key(ety), lambda: z3.ArraySort(REF, z3.IntSort()))
 
-    def set_len(self, lst, n):
-        self.heap["len"] = z3.Store(self.len_arr(), lst, n)
+    def length(self, lst, ety=None):
+        return z3.Select(self.len_arr(ety), lst)
+
+    def set_len(self, lst, n, ety=None):
+        self.heap[self.len_key(ety)] = z3.Store(self.len_arr(ety), lst, n)
 
     def el_arr(self, ety, part="val"):
         srt = z3.BoolSort() if part == "none" else sort_of(ety)
-        key = f"el:{sort_of(ety)}" + ("?" if part == "none" else "")
+        key = f"el:{kind_name(ety)}" + ("?" if part == "none" else "")
         return key, self.harr(key, lambda: z3.ArraySort(REF, z3.ArraySort(z3.IntSort(), srt)))
 
     def elems(self, lst, ety, part="val"):
@@ -465,13 +482,13 @@ class State:
             z3.ForAll([x], z3.Implies(self.mem(lst, x), z3.And(0 <= pos(x), pos(x) < n, z3.Select(el, pos(x)) == x)))))
         return pos, facts
 
-    def norm_index(self, lst, idx):
-        n = self.length(lst)
+    def norm_index(self, lst, idx, ety=None):
+        n = self.length(lst, ety)
         return z3.If(idx < 0, idx + n, idx), n
 
     def list_get(self, lst, idx, what="index"):
         ety = lst.ty[1]
-        i, n = self.norm_index(lst.term, idx.term if isinstance(idx, V) else idx)
+        i, n = self.norm_index(lst.term, idx.term if isinstance(idx, V) else idx, ety)
         if strip_opt(ety)[0] == "ref" and not self.quiet:
             self.assume_link(lst.term)
         self.oblige(f"{what}-in-range", z3.And(i >= 0, i < n), "implicit")
@@ -486,7 +503,7 @@ class State:
 
     def list_set(self, lst, idx, val, check=True):
         ety = lst.ty[1]
-        i, n = self.norm_index(lst.term, idx.term if isinstance(idx, V) else idx)
+        i, n = self.norm_index(lst.term, idx.term if isinstance(idx, V) else idx, ety)
         if check:
             self.oblige("store-index-in-range", z3.And(i >= 0, i < n), "implicit")
         k, a = self.el_arr(ety)
@@ -505,7 +522,7 @@ class State:
 
     def new_list(self, ety, hint="list"):
         r = self.new_ref(hint)
-        self.set_len(r, z3.IntVal(0))
+        self.set_len(r, z3.IntVal(0), ety)
         if strip_opt(ety)[0] == "ref":
             self.set_mem(r, z3.K(REF, z3.BoolVal(False)))
             self.set_nodup(r, True)
@@ -513,8 +530,7 @@ class State:
 
     # ---- dicts: dom: ref -> (key -> bool), val: ref -> (key -> sort) per (key sort, value sort)
     def dict_keys(self, dty):
-        ks, vs = sort_of(dty[1]), sort_of(dty[2])
-        tag = f"{ks}_{vs}"
+        tag = f"{kind_name(dty[1])}_{kind_name(dty[2])}"
         return f"dd:{tag}", f"dv:{tag}", f"dv:{tag}?"
 
     def dict_arrays(self, dty):
@@ -598,6 +614,8 @@ class State:
                             self.farr(cls, field)
                             if field_type(cls, field)[0] == "opt":
                                 self.farr(cls, field, "none")
+                        elif k.startswith("len:"):
+                            self.harr(k, lambda: z3.ArraySort(REF, z3.IntSort()))
                         elif k in ("len", "mem", "heapok", "alloc", "nodup"):
                             {"len": self.len_arr, "mem": self.mem_arr, "heapok": self.heapok_arr, "alloc": self.alloc_arr, "nodup": self.nodup_arr}[k]()
                         else:
@@ -610,14 +628,14 @@ def sym_obj(cls, name):
     return V(("ref", cls), z3.Const(name, REF))
 
 
-_hq = {}
-
-
-def has_quant(e):
+def has_quant(e, memo=None):
+    """does the term contain a quantifier? (memo is per call: z3 ast ids are reused after garbage collection)"""
+    if memo is None:
+        memo = {}
     i = e.get_id()
-    if i not in _hq:
-        _hq[i] = z3.is_quantifier(e) or any(has_quant(c) for c in e.children())
-    return _hq[i]
+    if i not in memo:
+        memo[i] = z3.is_quantifier(e) or any(has_quant(c, memo) for c in e.children())
+    return memo[i]
 
 
 FEAS_STATS = {"calls": 0, "unsat": 0}
@@ -628,7 +646,8 @@ def feasible(pc):
     FEAS_STATS["calls"] += 1
     s = z3.Solver()
     s.set("rlimit", 2000000)
-    s.add(*[c for c in pc if not has_quant(c)])
+    memo = {}
+    s.add(*[c for c in pc if not has_quant(c, memo)])
     r = s.check()
     if r == z3.unsat:
         FEAS_STATS["unsat"] += 1
